@@ -160,7 +160,7 @@ def usable_ops(ops, backend, keyset, valset=None):
             continue
         if o['op'] == 'values' and valset == 'nonev':
             continue          # (a bare None in values() cannot be attributed to a key)
-        if o['op'] in ('eq', 'ne', 'eqx', 'xeq') and valset == 'func':
+        if o['op'] in ('eq', 'ne', 'eqx', 'xeq') and valset in ('func', 'mainfunc'):
             continue          # functions compare by identity: two archives holding "the same" function are not ==
         out.append(o)
     return out
